@@ -555,8 +555,8 @@ class IteratorQueue(IterableQueue[_ValueT]):
   def stop_with(self, other: types.Stoppable) -> None:
     """Also stops `other` when this queue is stopped."""
     self._stopped_with.append(other)
-    if self.exception is not None:
-      # Already failed, e.g., on the very first element.
+    if self.enqueue_done:
+      # Already over, e.g., failed on the very first element.
       other.maybe_stop()
 
   @classmethod
